@@ -157,9 +157,9 @@ PROPS = {
     ),
     'C11': dict(
         families=['typed'], reports=['unmarshal'], consts=True,
-        proof_files=TYPED_U + ['Proofs/AnyP.v'],
-        theorems='c11_any_roundtrip, c11_any_decodes, c11_any_remarshals, c11_rejects_nil_field, c11_rejects_composite_key, c11_rejects_nil_key, c11_rejects_nan_key, c11_rejects_big_tuple, c11_rejects_literal/min/max/ref, c11_unregistered_name_dropped (+ c11_unsorted_map_edge)',
-        assumptions=['type names of registered types are outside the proved domain (any_ok); they are covered by the correspondence on streams marshalled from registered catalogue types',
+        proof_files=TYPED_U + ['Proofs/AnyP.v', 'Proofs/RoundTripFullP.v', 'Proofs/AnyRegP.v'],
+        theorems='c11_any_roundtrip, c11_any_decodes, c11_any_remarshals, c11_registered_resurrects(_stable), c11_reg_roundtrip(_stable) [registered names nested at any depth], c11_resurrected_named, c11_domain_extends, c11_rejects_nil_field, c11_rejects_composite_key, c11_rejects_nil_key, c11_rejects_nan_key, c11_rejects_big_tuple, c11_rejects_literal/min/max/ref, c11_unregistered_name_dropped, c11_unregistered_name_lost (+ c11_unsorted_map_edge)',
+        assumptions=['registered names: the typed value behind a name lies in the typed round-trip domain (ty_ok / dom of C01); registered values as MAP KEYS of an untyped map, and struct-valued keys, are outside the proved domain and decided by the correspondence on streams marshalled from registered catalogue types',
                      'object field names: ASCII identifiers (go/token.IsIdentifier / IsExported on non-ASCII letters is not modelled; the generators use ASCII names)'],
     ),
 }
